@@ -34,7 +34,7 @@ INCLUDES = ["mptcore", "mptio", "mptplot", "mptloader", "."]
 BASE_FLAGS = [
     "--unwinding-assertions", "--slice-formula", "--drop-unused-functions",
     "--pointer-overflow-check", "--signed-overflow-check",
-    "--undefined-shift-check", "--no-malloc-may-fail",
+    "--undefined-shift-check", "--no-malloc-may-fail", "--object-bits", "12",
 ]
 # accepted but never used: conversion checks flag benign implicit narrowing in
 # harness casts and cannot be replayed natively (gcc has no such sanitizer)
@@ -348,7 +348,7 @@ def run_cbmc(q, gb, wd, tag, witness, tier_caps, want_trace, prop_name=None):
     mem = q.mem_gb or tier_caps["mem_gb"]
     cmd = ["cbmc", gb, "--function", q.func, "--json-ui", "--verbosity", "8"]
     if witness:
-        cmd += ["--slice-formula", "--drop-unused-functions", "--no-malloc-may-fail",
+        cmd += ["--slice-formula", "--drop-unused-functions", "--no-malloc-may-fail", "--object-bits", "12",
                 "--no-standard-checks", "--stop-on-fail", "--trace"]
     else:
         cmd += BASE_FLAGS
@@ -520,7 +520,7 @@ def build_native(q, wd, extra_defs):
         else:
             per.append((os.path.join(REPO, u), {}))
     for s in q.stubs:
-        if s in ("libc.c", "libc_loops.c"):
+        if s in ("libc.c", "libc_loops.c", "malloc_pages.c"):
             continue
         per.append((os.path.join(VERIF, "include", "stubs", s), {}))
     for s in q.extra_sources:
